@@ -3,28 +3,28 @@ package main
 // Per-function verification context: prelude management, loops, obligations.
 
 import (
-	"sync"
 	"fmt"
 	"go/token"
 	"go/types"
 	"sort"
 	"strings"
+	"sync"
 
 	"golang.org/x/tools/go/ssa"
 )
 
 type Obligation struct {
-	Func    string   `json:"func"`
-	Name    string   `json:"name"`
-	Kind    string   `json:"kind"` // ensures requires invariant frame safety cover
-	Tags    []string `json:"tags"`
-	Path    string   `json:"path"`
-	Text    string   `json:"text"`
-	Pos     string   `json:"pos"`
-	Query   string   `json:"-"`
-	Cover   bool     `json:"cover"` // expect sat (vacuity guard)
-	Result  SolverResult
-	Watch   []string `json:"-"`
+	Func   string   `json:"func"`
+	Name   string   `json:"name"`
+	Kind   string   `json:"kind"` // ensures requires invariant frame safety cover
+	Tags   []string `json:"tags"`
+	Path   string   `json:"path"`
+	Text   string   `json:"text"`
+	Pos    string   `json:"pos"`
+	Query  string   `json:"-"`
+	Cover  bool     `json:"cover"` // expect sat (vacuity guard)
+	Result SolverResult
+	Watch  []string `json:"-"`
 }
 
 type Loop struct {
@@ -34,38 +34,40 @@ type Loop struct {
 }
 
 type FnExec struct {
-	P          *Program
-	Fn         *ssa.Function
-	C          *FuncContract
-	Mode       string
-	prelude    []string
-	preludeSet map[string]bool
-	counter    int
-	initHeap   map[string]Term
-	entry      *State
-	entryNow   Term
-	params     map[string]Binding
-	resNames   []string
-	modset     []modEntry
-	loops      []*Loop
-	loopOf     map[*ssa.BasicBlock]*Loop
-	emit       func(*Obligation)
-	paths      int
-	maxPaths   int
-	errs       []string
-	qn         int
-	strLits    map[string]Term
-	typeCodes  map[string]int
-	retPaths   int
-	watch      []string
-	safetyOrd  map[ssa.Instruction]int
-	callOrd    map[ssa.Instruction]int
-	funcTags   []string
-	nObl       int
-	abstracted []string
-	name       string
-	usedGhosts map[int]bool
-	implGhost  map[string]Binding
+	P            *Program
+	Fn           *ssa.Function
+	C            *FuncContract
+	Mode         string
+	prelude      []string
+	preludeSet   map[string]bool
+	counter      int
+	initHeap     map[string]Term
+	entry        *State
+	entryNow     Term
+	params       map[string]Binding
+	resNames     []string
+	modset       []modEntry
+	loops        []*Loop
+	loopOf       map[*ssa.BasicBlock]*Loop
+	emit         func(*Obligation)
+	paths        int
+	maxPaths     int
+	errs         []string
+	qn           int
+	strLits      map[string]Term
+	typeCodes    map[string]int
+	retPaths     int
+	watch        []string
+	safetyOrd    map[ssa.Instruction]int
+	callOrd      map[ssa.Instruction]int
+	funcTags     []string
+	nObl         int
+	abstracted   []string
+	name         string
+	usedGhosts   map[int]bool
+	implGhost    map[string]Binding
+	asyncCall    bool            // applying a contract at a go statement
+	asyncCallees map[string]bool // goroutines started under contract (assumption: they keep to their frame)
 }
 
 type modEntry struct {
@@ -180,6 +182,11 @@ func (fe *FnExec) strLit(s string) Term {
 	b.WriteString("(declare-const " + name + " Str) ; " + fmt.Sprintf("%q", s) + "\n")
 	b.WriteString(fmt.Sprintf("(assert (= (strlen %s) %d))\n", name, len(s)))
 	b.WriteString("(assert (not (= " + name + " strempty)))")
+	if len(s) <= 32 {
+		for i := 0; i < len(s); i++ {
+			b.WriteString(fmt.Sprintf("\n(assert (= (strbyte %s %d) %d))", name, i, s[i]))
+		}
+	}
 	for _, k := range sortedKeys(fe.strLits) {
 		b.WriteString("\n(assert (not (= " + name + " " + fe.strLits[k].S + ")))")
 	}
@@ -216,6 +223,7 @@ const basePrelude = `(set-option :produce-models true)
 (declare-sort F32 0)
 (declare-const strempty Str)
 (declare-fun strlen (Str) Int)
+(declare-fun strbyte (Str Int) Int)
 (declare-fun strcat (Str Str) Str)
 (assert (= (strlen strempty) 0))
 (assert (forall ((s Str)) (! (>= (strlen s) 0) :pattern ((strlen s)))))
